@@ -688,10 +688,15 @@ func staticRefs(c *kit.Ctx, ssa bool) {
 		w := baseWorld(uint64(c.Seed)*43 + uint64(variant))
 		// variants 6-7 are variants 0-1 with the claim controller's XR cache still at the state before
 		// the XR appeared; it catches up once the controller has issued its first XR write
-		behindCache := variant >= 6
+		behindCache := variant >= 6 && variant < 8
+		// variants 8-9 are variants 0-1 with the foreign-bound XR being deleted (a finalizer holds it)
+		terminating := variant >= 8
 		frozenAt := w.RV()
 		if behindCache {
 			variant -= 6
+		}
+		if terminating {
+			variant -= 8
 		}
 		// an XR bound to claim other/owner (variants 0-2) or to nobody (3-5)
 		xr := xrk.XRObject("ex.org/v1", "XThing", "static-xr", "comp", map[string]any{"size": int64(9)})
@@ -705,7 +710,13 @@ func staticRefs(c *kit.Ctx, ssa bool) {
 			_ = unstructured.SetNestedMap(xr, map[string]any{"apiVersion": "ex.org/v1", "kind": "Thing", "namespace": "other", "name": owner}, "spec", "claimRef")
 			_ = unstructured.SetNestedStringMap(xr, map[string]string{"crossplane.io/claim-name": owner, "crossplane.io/claim-namespace": "other"}, "metadata", "labels")
 		}
+		if terminating {
+			_ = unstructured.SetNestedStringSlice(xr, []string{"composite.apiextensions.crossplane.io", "someone.example.org/hold"}, "metadata", "finalizers")
+		}
 		w.MustSeed("user", xr)
+		if terminating {
+			_ = w.Client("user").Delete(context.Background(), &unstructured.Unstructured{Object: w.GetObj(sim.Key{Group: "ex.org", Kind: "XThing", Name: "static-xr"})})
+		}
 		before := w.GetObj(sim.Key{Group: "ex.org", Kind: "XThing", Name: "static-xr"})
 		cm := claimObj("ns1", "c1")
 		_ = unstructured.SetNestedMap(cm, map[string]any{"apiVersion": "ex.org/v1", "kind": "XThing", "name": "static-xr"}, "spec", "resourceRef")
@@ -760,8 +771,8 @@ func staticRefs(c *kit.Ctx, ssa bool) {
 		})
 		return calls
 	}
-	for variant := 0; variant < 8; variant++ {
-		if variant >= 6 && ssa {
+	for variant := 0; variant < 10; variant++ {
+		if variant >= 6 && variant < 8 && ssa {
 			// Not judged for the server-side syncer: behind a stale XR cache the unchanged tree applies
 			// (with forced ownership) over the XR another claim is bound to. C06 quantifies over stale
 			// reads of the CLAIM; the client-side syncer holds under a stale XR cache as well (its
@@ -774,7 +785,7 @@ func staticRefs(c *kit.Ctx, ssa bool) {
 			continue
 		}
 		calls := run(caseName, variant, -1, sim.Conflict)
-		if variant > 1 {
+		if variant > 1 && variant < 8 {
 			continue
 		}
 		// an API fault at every call of the refused reconcile must not open a way around the guard
